@@ -77,6 +77,8 @@ type C12Sym struct {
 type C12Case struct {
 	Seq []C12Sym `json:"seq"`
 	Ser bool     `json:"ser"`
+	// Burst: the whole sequence is written back to back, without waiting for the server to digest each envelope
+	Burst bool `json:"burst,omitempty"`
 }
 
 func (c C12Case) names() []string {
@@ -91,7 +93,7 @@ func (c C12Case) names() []string {
 func genC12(t *rapid.T) C12Case {
 	al := c12Alphabet()
 	n := rapid.IntRange(1, 40).Draw(t, "len")
-	c := C12Case{Ser: rapid.Bool().Draw(t, "ser")}
+	c := C12Case{Ser: rapid.Bool().Draw(t, "ser"), Burst: rapid.Bool().Draw(t, "burst")}
 	for i := 0; i < n; i++ {
 		if i > 0 && rapid.IntRange(0, 2).Draw(t, "repeat") == 0 {
 			c.Seq = append(c.Seq, c.Seq[i-1]) // runs of the same envelope fill the one-slot queues
@@ -168,10 +170,22 @@ func execC12(t *testing.T, c C12Case) (v Verdict) {
 		for _, s := range c.Seq {
 			e := al[s.Shape].Env
 			_ = raw.Write(context.Background(), e.Build(s.ID, "", "c0", kit.ServerName))
-			kit.Settle()
+			if !c.Burst {
+				kit.Settle()
+			}
 		}
+		if c.Burst {
+			// With envelopes in flight the bubble cannot be settled while a handler lingers: a stream whose
+			// handler has returned queues for the registry mutex that the read loop holds while it is parked
+			// (legitimately) on the lingering stream, and a goroutine queueing for a mutex is never durably
+			// blocked. In burst mode the lingering handlers are therefore released before the first settle.
+			close(linger)
+		}
+		kit.Settle()
 		// the lingering handlers return now; whatever the read loop could not hand over meanwhile proceeds
-		close(linger)
+		if !c.Burst {
+			close(linger)
+		}
 		kit.Settle()
 		out = append(out, raw.ReadAvailable()...)
 		// probe on a fresh id
